@@ -35,7 +35,7 @@ def fidx(F, adt, name):
 
 def run(ctx):
     F, R = ctx.facts, ctx.report
-    R.explanation = ("WIRE-L: len() equals the emitted byte count per well-formed shape; TAB-N: Message::new records the serialised payload length, the extended-header flag, and the verbose flag / "
+    R.explanation = ("WIRE-L: len() equals the emitted byte count per well-formed shape; WIRE-H: the header writers emit the layouts byte_len()/add_storage_header count on (fixed 4-byte ids, NUL padded by bytes); TAB-N: Message::new records the serialised payload length, the extended-header flag, and the verbose flag / "
                      "argument count its payload kind requires; LEN: byte_len = payload_length + header lengths by flag; STORAGE: add_storage_header only sets the storage header from the argument and the header ECU id (default 'ECU'); "
                      "VALID: the validity table for Bool / Float kinds; TAB: message-info, header-type and control-id code tables decode and re-encode consistently (shared with C14 / C16).")
     R.not_decided = ["'parses back to an equal message' beyond the structural conditions (layouts vs spec: WIRE, parser-side consumption: C04)", "the current time used by add_storage_header(None)"]
@@ -47,6 +47,10 @@ def run(ctx):
     lib_wire.check_len(ctx, rows, "WIRE-L")
     R.floor("WIRE-W.shape", 40)
     R.floor("WIRE-L.pair", 40)
+    # byte_len() counts the header lengths by flag (LEN); it equals the serialisation only if the header writers emit exactly
+    # those lengths (16-byte storage header, 4 + optional fields, 10-byte extended header; ids padded to 4 bytes)
+    lib_wire.check_headers(ctx, "WIRE-H")
+    R.floor("WIRE-H", 11)
     # a built message parses back to an equal one only if every code field it carries survives encode-then-decode
     from rules import lib_codes
     lib_codes.check_msin(ctx)
